@@ -56,10 +56,28 @@ func main() {
 	replay := flag.String("replay", "", "replay file: re-evaluate only the listed obligations")
 	list := flag.Bool("list", false, "list registered properties")
 	genMan := flag.Bool("gen-manifest", false, "print MANIFEST.json")
+	listQuick := flag.Bool("list-quick", false, "list registered properties with their quick-tier package patterns")
 	flag.Parse()
 	if *genMan {
 		b, _ := json.MarshalIndent(genManifest(), "", " ")
 		fmt.Println(string(b))
+		return
+	}
+	if *listQuick {
+		var ids []string
+		for id := range registry {
+			ids = append(ids, id)
+		}
+		sort.Strings(ids)
+		for _, id := range ids {
+			fmt.Print(id)
+			for _, cl := range registry[id].Quick {
+				for _, p := range cl.Patterns {
+					fmt.Print(" ", p)
+				}
+			}
+			fmt.Println()
+		}
 		return
 	}
 	if *list {
